@@ -52,7 +52,9 @@ HOSTILE_VALUES = ['say "hi"', "back\\slash", "bs\bx", "ff\fx", "tab\tx", "nl\nx"
 REGEX_POOL = ["^[a-z]+$", "^[A-Z][a-z]*$", "^[0-9]{3}$", "^(foo|bar)$", "^a.c$", "^x{2,3}$", "^abc$", "abc", "^[a-z]+", "[a-z]*$", "^[^\\]]+$", "^[\\]a]+$",
               "^[a-z-]+$", "^[-a-z]+$", "^[\\^a]+$", "^[^a-z]$", "^\\d{4}$", "^\\w+$", "^a\\.b$", "^a\\\\b$", '^"q"$', "^a\"b$", "^(a|b)+$", "^(a(b|c))*$",
               "^a|b$", "^$", "^.*$", "^.+$", "^?$", "^*$", "^a{2}$", "^a{2,}$", "^a{,3}$", "^[a-z]{1,3}[0-9]?$", "^(?:x)$", "^(?=a)a$", "^a b$", "^é+$",
-              "^[é-ü]+$", "^[a-z]+\\$$", "^\\[x\\]$", "^a#b$", "^(unclosed$", "^[unclosed$", "^v[0-9]+\\.[0-9]+$"]
+              "^[é-ü]+$", "^[a-z]+\\$$", "^\\[x\\]$", "^a#b$", "^(unclosed$", "^[unclosed$", "^v[0-9]+\\.[0-9]+$",
+              # single classes holding '#', escaped punctuation and escaped backslashes
+              "^[#0-9a-f]+$", "[^#]*", "^[\\\\/]+$", "^[a-z:\\\\.]+$", "^[\\\\-]*$", "^[a-z\\-]+$", "^[0-9\\.]+$", "^[\\\\]+$", '^[^\\\\"]+$']
 SIMPLE_MEMBERS = ["REQ", "OPT", "TYPE[STRING]", "TYPE[NUMBER]", "TYPE[BOOLEAN]", "TYPE[LIST]", "DATE", "ISO8601", "DIR", "APPEND_ONLY", "RANGE[1,10]",
                   "MIN_LENGTH[0]", "MIN_LENGTH[2]", "MAX_LENGTH[5]", "CONST[X]", "CONST[5]", 'CONST["a b"]', "CONST[true]",
                   "ENUM[]", "ENUM[,]", "ENUM[ ]", "ENUM[A,]", "ENUM[,A]", 'ENUM[""]', "CONST[]", 'CONST[""]']  # (blank members)
@@ -143,7 +145,7 @@ def classify(prob, fields, route) -> str:
             return "C12:field-name-equals-structural-rule"
         if rule in by_rule and len(by_rule[rule]) > 1:
             return "C12:field-names-sanitise-alike"
-    if rule in deciding and "REGEX" in deciding[rule] and cls in ("undefined-ref", "expecting-newline", "bad-escape", "unterminated-class", "unterminated-literal",
+    if rule in deciding and "REGEX" in deciding[rule] and _regex_copy_malformed([ms for f, ms in fields if san[f] == rule]) and cls in ("undefined-ref", "expecting-newline", "bad-escape", "unterminated-class", "unterminated-literal",
                                                                    "unbalanced-paren", "bad-repetition", "dangling-repetition", "empty-alt", "rule-name-charset",
                                                                    "expecting-assign", "expecting-name"):
         return "C12:regex-passed-through-as-gbnf"
@@ -151,6 +153,27 @@ def classify(prob, fields, route) -> str:
             and any(re.search(r'["\\\n\r]', f) for f in by_rule[rule]):
         return "C12:field-name-interpolated-unescaped"
     return f"C12:unlisted:{cls}"
+
+
+_COPY_CACHE: dict = {}
+
+
+def _regex_copy_malformed(member_lists) -> bool:
+    """The known finding is: the pattern text (anchors stripped) is copied into the grammar although it is not GBNF. It
+    explains a problem only if that verbatim copy really is malformed GBNF; a pattern whose copy is fine GBNF (a plain
+    character class such as [\\\\/]+) must come out well-formed, and a problem in its rule is a violation of its own."""
+    for ms in member_lists:
+        for m in ms:
+            if isinstance(m, tuple) and m[0] == "REGEX":
+                pat = m[1]
+                if pat not in _COPY_CACHE:
+                    body = pat[1:] if pat.startswith("^") else pat
+                    body = body[:-1] if body.endswith("$") and not body.endswith("\\$") else body
+                    _, probs = gbnf.check('root ::= "K" ' + body + "\n")
+                    _COPY_CACHE[pat] = bool(probs) or not body
+                if _COPY_CACHE[pat]:
+                    return True
+    return False
 
 
 def sanitize(field_name: str) -> str:
@@ -195,6 +218,16 @@ def grammars_for(case, root, with_tools):
     for env in (False, True):
         yield f"api-fresh-env{int(env)}", GBNFCompiler().compile_schema(sd, include_envelope=env)
     yield "api-reused", _REUSED["reused"].compile_schema(sd, include_envelope=True)
+    # ---- the packaged integration helpers (Python API for llama.cpp and vLLM users)
+    from octave_mcp.integrations import llama_cpp as i_llama
+    from octave_mcp.integrations import vllm as i_vllm
+
+    for env in (False, True):
+        yield f"integration-llama_cpp-env{int(env)}", i_llama.schema_to_gbnf(sd, include_envelope=env)
+        yield f"integration-vllm-env{int(env)}", i_vllm.schema_to_vllm_grammar(sd, include_envelope=env)
+    g0 = GBNFCompiler().compile_schema(sd, include_envelope=True)
+    yield "integration-format_for_llama_cpp", i_llama.format_for_llama_cpp(g0)
+    yield "integration-format_for_vllm", i_vllm.format_for_vllm(g0)
     # ---- text routes
     text_fields = []
     for f, ms in fields:
